@@ -575,15 +575,16 @@ def run(ck: common.Check):
     cases = list(corpus())
     nmut = 10 if ck.quick else 20
     docs = exhaustive_presence() + units_and_types()
-    nrand = 700 if ck.quick else 9000
+    nrand = 500 if ck.quick else 9000
     docs += [mc.gen_doc(ck.rng) for _ in range(nrand)]
     # free text that output layers interpret (console markup, emoji codes, ANSI, format directives, long lines):
     # every such string in every free-text field at once, plus random mixtures; all of them go through `geff info`
     tricky = [mc.gen_doc_tricky(ck.rng, everywhere=t) for t in mc.TRICKY]
-    tricky += [mc.gen_doc_tricky(ck.rng) for _ in range(100 if ck.quick else 1500)]
+    tricky += [mc.gen_doc_tricky(ck.rng) for _ in range(60 if ck.quick else 1500)]
     n_plain = len(docs)
     docs += tricky
-    sub_every = max(1, len(tricky) // (4 if ck.quick else 30))
+    sub_every = max(1, len(tricky) // (2 if ck.quick else 30))
+    sub_envs = ["tty-like", "dumb"] if ck.quick else ["tty-like", "dumb", "narrow"]
     clearable = ["axes", "sphere", "ellipsoid", "track_node_props", "related_objects", "display_hints"]
 
     def rewrites(d):
@@ -601,9 +602,9 @@ def run(ck: common.Check):
         foreign.pop("geff", None)
         cases.append({"doc": d, "foreign": foreign, "via": ("validate", "kwargs", "json")[i % 3], "stale": i % 5 == 0,
                       "disk": i % (60 if ck.quick else 120) == 7 or (_nonfinite(d) and i % 4 == 0) or i >= n_plain,
-                      "cli_sub": (["tty-like", "dumb", "narrow"] if (i >= n_plain and (i - n_plain) % sub_every == 3)
-                                  or i == 0 else []),
-                      "rewrite": rewrites(d) if i % 3 == 0 else [],
+                      "cli_sub": (sub_envs if (i >= n_plain and (i - n_plain) % sub_every == 3)
+                                  or (i == 0 and not ck.quick) else []),
+                      "rewrite": rewrites(d) if i % (4 if ck.quick else 3) == 0 else [],
                       "mut_idx": [ck.rng.randrange(10 ** 6) for _ in range(nmut)]})
     # the first documents get *all* their mutations
     for c in cases[: (5 if ck.quick else 40)]:
